@@ -278,7 +278,7 @@ def setup(root, program, cfg):
         gopath = os.path.join(base, 'gp')
         proj = os.path.join(gopath, 'src', MODP)
         env.update(GOPATH=gopath, GO111MODULE='off', GOFLAGS='')
-        dep = os.path.join(proj, 'vendor') if layout == 'gopath-vendor' else os.path.join(gopath, 'src')
+        dep = os.path.join(proj, 'vendor') if layout == 'gopath-vendor' else (os.path.join(gopath, 'src', 'vendor') if layout == 'gopath-rootvendor' else os.path.join(gopath, 'src'))
         os.makedirs(os.path.join(dep, 'github.com/google/wire'), exist_ok=True)
         shutil.copy(os.path.join(core.REPO, 'wire.go'), os.path.join(dep, 'github.com/google/wire', 'wire.go'))
         os.makedirs(os.path.join(dep, 'github.com/google/subcommands'), exist_ok=True)
